@@ -113,9 +113,12 @@ pub enum Edit {
     MissingRootType,
     DuplicateFragmentName,
     DuplicateOperationName,
+    ImpossibleSpreadOfUsedFragment,
+    TypenameOnlyInVariantSpread,
+    TypenameOnlyInVariantInline,
 }
 
-pub const ALL_EDITS: [Edit; 17] = [
+pub const ALL_EDITS: [Edit; 20] = [
     Edit::UnknownField,
     Edit::SubselectionOnLeaf,
     Edit::NoSelectionOnComposite,
@@ -133,6 +136,9 @@ pub const ALL_EDITS: [Edit; 17] = [
     Edit::MissingRootType,
     Edit::DuplicateFragmentName,
     Edit::DuplicateOperationName,
+    Edit::ImpossibleSpreadOfUsedFragment,
+    Edit::TypenameOnlyInVariantSpread,
+    Edit::TypenameOnlyInVariantInline,
 ];
 
 impl Edit {
@@ -155,6 +161,9 @@ impl Edit {
             Edit::MissingRootType => "missing-root-type",
             Edit::DuplicateFragmentName => "duplicate-fragment-name",
             Edit::DuplicateOperationName => "duplicate-operation-name",
+            Edit::ImpossibleSpreadOfUsedFragment => "impossible-spread-of-used-fragment",
+            Edit::TypenameOnlyInVariantSpread => "typename-only-in-variant-spread",
+            Edit::TypenameOnlyInVariantInline => "typename-only-in-variant-inline",
         }
     }
     /// document-level edits are applied once per operation, not per position
@@ -301,6 +310,59 @@ pub fn apply(s: &ASchema, doc: &ADoc, edit: Edit, pos: Option<&Pos>, op_idx: usi
             let at = pick % (set.len() + 1);
             set.insert(at, ASel::Spread { name: "MisplacedFragment".into() });
             desc = format!("spread of a fragment on `{}` which can never apply at {}", t, pos.describe());
+        }
+        Edit::ImpossibleSpreadOfUsedFragment => {
+            // a fragment that is already spread (validly) somewhere else is additionally spread where its
+            // type condition can never apply: every spread has to be checked, not every fragment once
+            let pos = pos?;
+            let pp = s.possible_types(&pos.parent_type);
+            let cands: Vec<&AFrag> = d
+                .frags
+                .iter()
+                .filter(|f| f.on != pos.parent_type && pos.container != Err(d.frags.iter().position(|g| g.name == f.name).unwrap_or(usize::MAX)))
+                .filter(|f| !s.possible_types(&f.on).iter().any(|t| pp.contains(t)))
+                .collect();
+            if cands.is_empty() {
+                return None;
+            }
+            let f = cands[pick % cands.len()].clone();
+            let set = selset_mut(&mut d, pos);
+            let at = if pick % 3 == 0 { pick % (set.len() + 1) } else { set.len() };
+            set.insert(at, ASel::Spread { name: f.name.clone() });
+            desc = format!("existing fragment `{}` (on `{}`) additionally spread where it can never apply, at {}", f.name, f.on, pos.describe());
+        }
+        Edit::TypenameOnlyInVariantSpread | Edit::TypenameOnlyInVariantInline => {
+            // `__typename` is moved from the abstract selection into a fragment on ONE concrete member:
+            // the abstract selection itself no longer has it
+            let pos = pos?;
+            if !s.is_abstract(&pos.parent_type) || pos.under_inline {
+                return None;
+            }
+            let parent = pos.parent_type.clone();
+            let members = s.possible_types(&parent);
+            if members.is_empty() {
+                return None;
+            }
+            let member = members[pick % members.len()].clone();
+            let set = selset_mut(&mut d, pos);
+            if !set.iter().any(|x| matches!(x, ASel::Typename)) {
+                return None;
+            }
+            set.retain(|x| !matches!(x, ASel::Typename));
+            let via_spread = edit == Edit::TypenameOnlyInVariantSpread;
+            if via_spread {
+                set.push(ASel::Spread { name: "VariantWithTypename".into() });
+            } else {
+                set.push(ASel::Inline { on: member.clone(), sub: vec![ASel::Typename] });
+            }
+            let remaining = set.clone();
+            if via_spread {
+                d.frags.push(AFrag { name: "VariantWithTypename".into(), on: member.clone(), sels: vec![ASel::Typename] });
+            }
+            if has_typename(&d, &parent, &remaining, 0) {
+                return None;
+            }
+            desc = format!("`__typename` of the abstract selection at {} moved into a {} on member `{}`", pos.describe(), if via_spread { "fragment spread" } else { "inline fragment" }, member);
         }
         Edit::MissingTypename => {
             let pos = pos?;
